@@ -155,6 +155,7 @@ def run(ctx):
         curs = r.choice(["default", "default", "nocursor", "pseudocursor", "nocursor+pseudocursor"])
         c, trace, _ = new_client("lib", nocursor=("nocursor" in curs), pseudocursor=("pseudocursor" in curs))
         c.image_mode = mode
+        c.width, c.height = r.choice([1, 8, 40, 320]), r.choice([1, 8, 40, 320])     # as ServerInit leaves them (the protocol layer's attributes)
         ref = Canvas()
         ops = []
         has_cursor = False
@@ -188,6 +189,7 @@ def run(ctx):
             elif k < .85:
                 w, h = r.choice([0, 1, 5, 50, 120, 320]), r.choice([0, 1, 5, 50, 120, 320])
                 ops.append(("resize", w, h))
+                c.width, c.height = w, h          # the protocol layer records the geometry, then calls the callback
                 c.updateDesktopSize(w, h)
                 ref.resize(w, h)
                 ml.append("cv-resize %d %d" % (w, h))
